@@ -105,6 +105,22 @@ def oracle(ctx, o, first_only=False):
                             chk(name + ":verifies-own", st4 == "ok" and v4 is True, inp, str(v4)[:60], "True")
                 if fails and first_only:
                     return fails
+    # ---- 1b. lmhash hashes the UPPER-CASED text in its code page: the limit applies to those bytes (ß -> "SS" grows by one)
+    lm = vc.handler("lmhash")
+    for pre, grows in (("a" * 13, True), ("a" * 12, False), ("a" * 14, True), ("", False)):
+        pw = pre + "\u00df"
+        eff = pw.upper().encode("cp437")
+        for mode in ("hasher", "context"):
+            inp = {"op": "lmhash-case-expansion", "secret": pw, "via": mode, "hashed_bytes": len(eff)}
+            if mode == "hasher":
+                st, r = vc.safe_call(lambda: lm.using(truncate_error=True).hash(pw))
+            else:
+                st, r = vc.safe_call(lambda: CryptContext(["lmhash"], truncate_error=True).hash(pw))
+            if len(eff) > 14:
+                chk("lmhash:refuses-overlong-after-uppercasing", st == "err" and isinstance(r, exc.PasswordTruncateError), inp, errname(r) if st == "err" else r,
+                    "PasswordTruncateError: the upper-cased text is longer than 14 bytes")
+            else:
+                chk("lmhash:accepts-within-limit-after-uppercasing", st == "ok", inp, errname(r) if st == "err" else r, "a hash")
     # ---- 2. the library-wide maximum, every hasher and CryptContext
     from .formats_common import EXPENSIVE
 
